@@ -67,6 +67,12 @@ def gen_tree(rng, scratch: str) -> typing.Tuple[Tree, typing.List[bytes], typing
     t.file(b"latin-dir/.cap/doc.txt", b"Abstract=cap caf\xe9\n")
     t.file(b"mapped-dir/gophermap", "Hello from a gophermap\n0A file\tfile.txt\n1Remote\t/x\thost.example\t70\n")
     t.file(b"mapped-dir/file.txt", "mapped\n")
+    # a gophermap directory (and a *.gophermap file) with sidecars of their own, seen from the parent's listing
+    t.file(b"mapped-dir/.abstract", "Abstract of the mapped directory")
+    t.file(b"mapped-dir/.keywords", "maps, keywords")
+    t.file(b"maps/menu.gophermap", "A map file\n0Target\t/links-dir/target.txt\n")
+    t.file(b"maps/menu.gophermap.abstract", "Abstract of the map file")
+    t.file(b"maps/plain.txt", "plain\n")
     t.dir(b"empty-dir")                       # explicit directory members without anything below them
     t.dir(b"holder/empty-inside")
     t.symlink(b"links-dir/to-empty", b"../empty-dir")
